@@ -194,11 +194,27 @@ pub struct KnownFindings {
 impl KnownFindings {
     pub fn load(ctx: &Ctx) -> Self {
         let p = ctx.verif_dir.join("known_findings.json");
-        match std::fs::read_to_string(&p) {
+        let mut all: Self = match std::fs::read_to_string(&p) {
             Ok(txt) => serde_json::from_str(&txt)
                 .unwrap_or_else(|e| machinery_error(&format!("bad known_findings.json: {e}"))),
             Err(_) => Self::default(),
+        };
+        // staging area used while engines are being developed in parallel; merged into
+        // known_findings.json at integration time
+        if let Ok(rd) = std::fs::read_dir(ctx.verif_dir.join("known_findings.d")) {
+            let mut names: Vec<_> = rd.filter_map(|e| e.ok()).map(|e| e.path()).collect();
+            names.sort();
+            for f in names {
+                if f.extension().map(|x| x == "json").unwrap_or(false) {
+                    let txt = std::fs::read_to_string(&f).unwrap_or_default();
+                    let more: Self = serde_json::from_str(&txt)
+                        .unwrap_or_else(|e| machinery_error(&format!("bad {f:?}: {e}")));
+                    all.findings.extend(more.findings);
+                    all.fixed.extend(more.fixed);
+                }
+            }
         }
+        all
     }
     pub fn lookup(&self, property: &str, key: &str) -> Option<&KnownFinding> {
         self.findings
